@@ -364,7 +364,9 @@ def run(ctx):
             pass
     from mc.core import chunked
 
-    ctx.pmap(worker, chunked(table, 12), table_by_number=dict(by_n))
+    # (the whole sweep is cheap: every chunk is also run in a fresh interpreter in the hostile environment, in which - among other
+    # things - a construction with an unknown choice has already been refused for every one of the 230 numbers)
+    ctx.pmap(worker, chunked(table, 12), hostile_all=True, table_by_number=dict(by_n))
 
 
 def replay(ctx, case):
